@@ -163,12 +163,15 @@ class Ctx:
                 self.rec.merge(_shard_call((fn, s)))
             return
         ctx = mp.get_context("fork")
+        errors = []
         with ctx.Pool(procs) as pool:
             for r in pool.imap_unordered(_shard_call, [(fn, s) for s in shards], chunksize=1):
                 if isinstance(r, _ShardError):
-                    pool.terminate()
-                    raise HarnessError(f"shard failed: {r.text}")
+                    errors.append(r.text)      # the other shards still report what they found
+                    continue
                 self.rec.merge(r)
+        if errors:
+            raise HarnessError(f"shard failed: {errors[0]}" + (f" (+{len(errors) - 1} more)" if len(errors) > 1 else ""))
 
     # hypothesis ---------------------------------------------------------------------------------------
     def hyp_explore(self, strategy, body, max_examples, name="hyp", shrink_keys=4, shrink_s=None):
@@ -192,7 +195,9 @@ class Ctx:
         try:
             explore()
         except hypothesis.errors.HypothesisException as e:   # generator / health problems are harness errors
-            raise HarnessError(f"{name}: hypothesis error {type(e).__name__}: {e}") from e
+            if not [k for k in rec.fails if k not in before]:
+                raise HarnessError(f"{name}: hypothesis error {type(e).__name__}: {e}") from e
+            rec.notes.append(f"{name}: exploration ended early with {type(e).__name__} after violations had been recorded")
 
         new_keys = [k for k in rec.fails if k not in before]
         shrink_s = shrink_s if shrink_s is not None else (20 if self.quick else 120)
@@ -416,10 +421,24 @@ def child_main(argv):
         return finish(ctx)
     except HarnessError as e:
         print(f"HARNESS-ERROR property={prop} {e}")
-        return 2
+        return _violations_despite_harness_error(ctx)
     except Exception:  # noqa: BLE001
         print(f"HARNESS-ERROR property={prop} unexpected exception in harness:\n{traceback.format_exc()}")
+        return _violations_despite_harness_error(ctx)
+
+
+def _violations_despite_harness_error(ctx):
+    """A part of the harness failed (exit 2) - but violations that other parts had already recorded are real, replayable
+    findings: they are reported (exit 1). On a tree without violations nothing changes: exit 2."""
+    if not ctx.rec.fails:
         return 2
+    ctx.required_classes = []
+    ctx.rec.notes.append("a part of this run ended in a harness error (see HARNESS-ERROR line); the violations below were recorded before it")
+    try:
+        rc = finish(ctx)
+    except Exception:  # noqa: BLE001
+        return 2
+    return rc if rc == 1 else 2
 
 
 def launcher(argv):
